@@ -296,6 +296,18 @@ class _Missing:
 
 def native(qualname):
     """the real, natively imported object (JIT as installed) for replay and the bounded tier"""
+    import sys as _sys
+    if "distance3d.visualization" not in _sys.modules:
+        try:
+            importlib.import_module("distance3d.visualization")
+        except Exception:
+            m = types.ModuleType("distance3d.visualization")
+
+            class RigidBodyTetrahedralMesh:
+                def __init__(self, *a, **k):
+                    pass
+            m.RigidBodyTetrahedralMesh = m.Mesh = m.Ellipse = RigidBodyTetrahedralMesh
+            _sys.modules["distance3d.visualization"] = m
     parts = qualname.split(".")
     for k in range(len(parts), 0, -1):
         try:
